@@ -173,8 +173,12 @@ Mismatch_(ev, S) ==
                              THEN [i \in DOMAIN exp.req |-> Mask(exp.req[i], S.fullReq)] # [i \in DOMAIN S.req |-> Mask(S.req[i], S.fullReq)]
                              ELSE FALSE }
 
+\* a discarded step is judged by conformance only (its branch must leave nothing behind, which the
+\* state groups compare); the step properties speak about committed steps, and a leak from a
+\* discarded branch is judged at the later committed steps it influences
 PropHolds(c, S) ==
-  CASE c = "C01" -> Prop_C01(S) [] c = "C02" -> Prop_C02(S) /\ Prop_C02big(S) [] c = "C03" -> Prop_C03(S)
+  CASE S.in.disc -> TRUE
+    [] c = "C01" -> Prop_C01(S) [] c = "C02" -> Prop_C02(S) /\ Prop_C02big(S) [] c = "C03" -> Prop_C03(S)
     [] c = "C04" -> Prop_C04(S) /\ Prop_C04big(S) [] c = "C05" -> Prop_C05(S) [] c = "C06" -> Prop_C06(S) [] c = "C08" -> Prop_C08(S)
     [] c = "C09" -> Prop_C09(S) [] c = "C10" -> Prop_C10(S) [] c = "C11" -> Prop_C11(S)
     [] c = "C07" -> Prop_C07(S) [] c = "C13" -> Prop_C13(S) [] c = "C19" -> Prop_C19(S)
